@@ -31,6 +31,9 @@ def run(tier):
     ck = common.Check('C06', tier)
     res = parts.run_parts(ck, tier, ir_parts=('ir_alloc', 'ir_noexcept', 'ir_pair', 'ir_size', 'ir_lifetime'),
                           rule_filter=lambda p, x: keep(p, x) and (p != 'ir_lifetime' or x.rule == 'R03.2'))
+    from .. import irrules
+    irrules.run_canaries(ck, {'ir_noexcept': [('R06.4', 'canary_swallow')], 'ir_size': [('R06.3', 'canary_size_first')],
+                              'ir_alloc': [('R04.1', 'canary_leak_on_throw')]}, silent=('canary_ok_alloc',))
     r = res.get('ir_noexcept', [])
     ck.floor('catch-all handlers examined', sum(x['res']['catch_handlers'] for x in r if x['ok']),
              500 if tier == 'quick' else 5000)
